@@ -104,7 +104,9 @@ def membership_family(versions=VERSIONS, full=True):
                             thr = {"invite": "invite", "leave": "kick", "ban": "ban"}.get(em)
                             sender_rel = [-1, 0, 1] if (thr and pl == "present" and not self_target) else [0]
                             target_rel = [-1, 0, 1] if (em in ("leave", "ban") and pl == "present" and not self_target) else [-1]
-                            for srel, trel in itertools.product(sender_rel, target_rel):
+                            # kicks / unbans: the ban threshold below, at and above the kick threshold
+                            ban_rel = [0, -2, 2] if (em == "leave" and pl == "present" and not self_target) else [0]
+                            for srel, trel, brel in itertools.product(sender_rel, target_rel, ban_rel):
                                 b = Builder(v)
                                 b.create()
                                 sender = ALICE
@@ -121,7 +123,7 @@ def membership_family(versions=VERSIONS, full=True):
                                     if thr:
                                         c[thr] = threshold
                                     if em == "leave":
-                                        c["ban"] = threshold      # unban needs ban level too
+                                        c["ban"] = threshold + brel      # unban needs the ban level too
                                     if not self_target:
                                         c["users"][target] = slevel + trel
                                     b.power_levels(c)
@@ -429,6 +431,101 @@ def malformed_member_and_redaction_family(versions=VERSIONS):
                     yield b.triple(ev, "event:redaction-level")
                     evc = b.event("m.room.redaction", CREATOR, {}, redacts=red, event_id="$red2:" + HS2)
                     yield b.triple(evc, "event:redaction-level")
+
+
+LEVELS = [0, 10, 25, 40, 41, 50, 75, 100]
+
+
+def random_family(seed, n, versions=VERSIONS):
+    """random rooms and candidate events: every power-level field independently absent or drawn from
+    LEVELS (so thresholds differ from each other), random memberships / join rules / event kinds.
+    Complements the product families, which move one threshold at a time."""
+    import random
+
+    def fam():
+        rng = random.Random("authgen-random-%s" % seed)
+        users = [CREATOR, ALICE, BOB, CAROL]
+        for _ in range(n):
+            v = rng.choice(versions)
+            b = Builder(v)
+            b.create(federate=rng.choice([None, None, None, True, False]))
+            b.member(CREATOR, rng.choice(["join", "join", "join", "leave"]))
+            ms = {}
+            for u in (ALICE, BOB, CAROL):
+                ms[u] = rng.choice(["join", "join", "join", "invite", "leave", "ban", "knock", None])
+                b.member(u, ms[u], sender=CREATOR if ms[u] in ("ban", "invite") else u)
+            b.join_rules(rng.choice(JOIN_RULES))
+            pl = None
+            if rng.random() < 0.85:
+                pl = {}
+                for f in ("ban", "kick", "invite", "redact", "state_default", "events_default", "users_default"):
+                    if rng.random() < 0.6:
+                        lv = rng.choice(LEVELS)
+                        pl[f] = str(lv) if (v < 10 and rng.random() < 0.1) else lv
+                if rng.random() < 0.9:
+                    pl["users"] = {u: rng.choice(LEVELS) for u in users if rng.random() < 0.7}
+                if rng.random() < 0.6:
+                    pl["events"] = {t: rng.choice(LEVELS) for t in ("m.room.name", "m.room.power_levels", "m.room.message",
+                                                                  "m.room.third_party_invite", "m.room.member", "m.room.redaction",
+                                                                  "m.room.join_rules") if rng.random() < 0.4}
+                if rng.random() < 0.3:
+                    pl["notifications"] = {"room": rng.choice(LEVELS)}
+                b.power_levels(pl)
+            sender = rng.choice([ALICE, ALICE, ALICE, BOB, CREATOR])
+            kind = rng.choice(["member", "member", "member", "message", "state", "power_levels", "redaction", "tpi", "join_rules"])
+            if kind == "member":
+                target = rng.choice([sender, sender, BOB, CAROL, ALICE])
+                c = {"membership": rng.choice(["join", "invite", "leave", "leave", "ban", "knock"])}
+                if c["membership"] == "join" and rng.random() < 0.3:
+                    c["join_authorised_via_users_server"] = rng.choice([CAROL, CREATOR, BOB])
+                ev = b.event("m.room.member", sender, c, state_key=target)
+            elif kind == "message":
+                ev = b.event(rng.choice(["m.room.message", "m.reaction", "org.custom"]), sender, {"body": "x"})
+            elif kind == "state":
+                ev = b.event(rng.choice(["m.room.name", "m.room.topic", "org.custom.state", "m.room.history_visibility"]), sender,
+                             {"name": "x"}, state_key=rng.choice(["", "", sender, "@other:" + HS2, "key"]))
+            elif kind == "join_rules":
+                ev = b.event("m.room.join_rules", sender, {"join_rule": rng.choice(JOIN_RULES[1:])}, state_key="")
+            elif kind == "tpi":
+                ev = b.event("m.room.third_party_invite", sender, {"display_name": "d", "key_validity_url": "https://x/y",
+                                                                   "public_key": "abc", "public_keys": []}, state_key="tok")
+            elif kind == "redaction":
+                ev = b.event("m.room.redaction", sender, {"redacts": "$victim:" + rng.choice([HS1, HS2])} if v >= 11 else {},
+                             redacts="$victim:" + rng.choice([HS1, HS2]), event_id="$red:" + rng.choice([HS1, HS2]))
+            else:
+                import copy
+                new = copy.deepcopy(pl) if pl is not None else {}
+                for _k in range(rng.randint(1, 3)):
+                    what = rng.choice(["scalar", "scalar", "user", "event", "notification"])
+                    if what == "scalar":
+                        f = rng.choice(["ban", "kick", "invite", "redact", "state_default", "events_default", "users_default"])
+                        if rng.random() < 0.2:
+                            new.pop(f, None)
+                        else:
+                            new[f] = rng.choice(LEVELS)
+                    elif what == "user":
+                        u = rng.choice(users)
+                        d = new.setdefault("users", {})
+                        if rng.random() < 0.25:
+                            d.pop(u, None)
+                        else:
+                            d[u] = rng.choice(LEVELS)
+                    elif what == "event":
+                        d = new.setdefault("events", {})
+                        t = rng.choice(["m.room.name", "m.room.power_levels", "m.room.message", "org.new"])
+                        if rng.random() < 0.25:
+                            d.pop(t, None)
+                        else:
+                            d[t] = rng.choice(LEVELS)
+                    else:
+                        d = new.setdefault("notifications", {})
+                        if rng.random() < 0.25:
+                            d.pop("room", None)
+                        else:
+                            d["room"] = rng.choice(LEVELS)
+                ev = b.event("m.room.power_levels", sender, new, state_key="")
+            yield b.triple(ev, "random:%s" % kind)
+    return fam
 
 
 def all_families(versions=VERSIONS):
